@@ -444,10 +444,10 @@ def opticom(S, d, lmin, lmax, option, lam, m, abstract_error=False):
 
 BOUNDS = {
     'quick': {'construct': 'd<=2, 2-3 samples, values in [-8,8], matrix C/I', 'design': 'levels (1,),(2,),(3,),(2,1),(2,2) with 1-2 symbolic samples; trees with <=3 / 2x1 interior points',
-              'smooth': 'level vectors (1,),(2,),(3,),(1,1),(2,2),(2,1),(1,2),(3,1); symbolic knots <=(3,), (2,1),(2,2); trees (3,),(2,2)',
+              'smooth': 'level vectors (1,),(2,),(3,),(1,1),(2,2),(2,1),(1,2),(3,1); symbolic knots <=(3,) (1-D); trees (3,),(2,1),(2,2)',
               'system': 'levels (2,),(2,1),(1,1),(2,2) x matrix C/I x lambda symbolic>0 or 0, 2 symbolic samples; trees (2,),(3,),(2,1)', 'opticom': 'd=1 (1,2),(1,3); d=2 (1,2); options 1,2,3; lambda 0 / 0.1; 2 samples'},
     'thorough': {'construct': 'd<=3, 2-4 samples', 'design': 'levels up to (3,2),(2,2,1), 1-3 samples; trees (5,),(3,2)',
-                 'smooth': 'level vectors up to (4,),(3,3),(3,2),(2,2,1),(1,2,1); symbolic knots (4,),(3,2); trees (5,),(3,3)',
+                 'smooth': 'level vectors up to (4,),(3,3),(3,2),(2,2,1),(1,2,1); symbolic knots <=(4,) (1-D); trees (5,),(2,1),(2,2),(3,3)',
                  'system': 'levels up to (3,),(3,2) and 3 samples; trees (5,),(3,2)', 'opticom': 'd=1 (1,4); d=2 (1,3),(2,3); d=3 (1,2)'},
 }
 
@@ -488,8 +488,10 @@ def jobs(tier):
         js.append(Job('designdw[n=%s,m=%d]' % ('x'.join(map(str, npts)), m), designdw, {'npts': list(npts), 'm': m}, **kw))
     for lv in ([(1,), (2,), (3,), (1, 1), (2, 2), (2, 1), (1, 2), (3, 1)] if q else [(1,), (2,), (3,), (4,), (1, 1), (2, 2), (3, 3), (2, 1), (1, 2), (3, 1), (3, 2), (2, 2, 1), (1, 2, 1), (1, 1, 1), (2, 2, 2)]):
         js.append(Job('smooth[l=%s,%s]' % ('x'.join(map(str, lv)), 'isotropic' if len(set(lv)) == 1 else 'anisotropic'), smooth, {'levelvec': list(lv)}, **kw))
-    for npts, symb in ([((1,), True), ((2,), True), ((3,), True), ((2, 1), True), ((2, 2), True), ((3,), False), ((2, 2), False)] if q else
-                       [((1,), True), ((2,), True), ((3,), True), ((4,), True), ((2, 1), True), ((2, 2), True), ((3, 2), True), ((3,), False), ((5,), False), ((3, 3), False)]):
+    # two and more dimensions only on refinement trees: the d >= 2 matrix is a known finding and refuting rational identities entry by entry on
+    # symbolic knots costs minutes of nonlinear solving without adding information
+    for npts, symb in ([((1,), True), ((2,), True), ((3,), True), ((3,), False), ((2, 1), False), ((2, 2), False)] if q else
+                       [((1,), True), ((2,), True), ((3,), True), ((4,), True), ((3,), False), ((5,), False), ((2, 1), False), ((2, 2), False), ((3, 3), False)]):
         js.append(Job('smoothdw[n=%s,%s,d=%d]' % ('x'.join(map(str, npts)), 'symgeom' if symb else 'trees', len(npts)), smoothdw, {'npts': list(npts), 'symbolic': symb}, **kw))
     for lv, m in ([((2,), 2), ((2, 1), 2), ((1, 1), 2), ((2, 2), 2)] if q else [((2,), 2), ((3,), 3), ((2, 1), 2), ((1, 1), 2), ((2, 2), 2), ((3, 2), 2)]):
         for mat in ('C', 'I'):
